@@ -415,6 +415,8 @@ struct FutureCase {
         check_value(v, "get()");
         if (after && is_harness_sched<M>() && waits_now() != w0)
           dsched::fail("after-set", "get() after set_value had returned went to sleep on the futex");
+        // the value has reached this thread: the future is ready for it from now on
+        if (!f.ready()) dsched::fail("ready-after-get", "ready() == false after get() returned the value");
         break;
       }
       case O_WAIT: {
@@ -425,6 +427,7 @@ struct FutureCase {
           Val& v = f.get();
           check_value(v, "get() after wait_for == true");
           if (is_harness_sched<M>() && waits_now() != w1) dsched::fail("wait-for-true", "get() slept although wait_for had just returned true");
+          if (!f.ready()) dsched::fail("ready-after-get", "ready() == false after wait_for returned true");
         }
         break;
       }
@@ -596,9 +599,15 @@ struct LatchCase {
       if (!dsched::ordered_after(st)) return false;
     return dsched::ordered_after(W->set_end_stamp);
   }
+  // what each count_down call "reports": written before the call, read by whoever learns that the latch is ready
+  Tracked<uint64_t> payload[8];
+  int n_payload = 0;
   void observed_ready(const char* how) {
     if (W->down_begun != W->latch_count)
       dsched::fail("latch-early", "%s reports the latch ready after count_down calls worth %zu of %zu had begun", how, W->down_begun, W->latch_count);
+    for (int k = 0; k < n_payload; k++)
+      if (payload[k].get("work published by count_down") != (uint64_t)k + 100)
+        dsched::fail("latch-payload", "%s: result #%d reported before count_down is not visible", how, k);
   }
   void do_op(Fut& f, const LOp& op) {
     uint64_t s0 = dsched::step();
@@ -629,7 +638,10 @@ struct LatchCase {
       }
       case L_ONFIN: {
         int idx = new_cb(true);
-        f.on_finish([idx](size_t&) { on_cb(idx, nullptr); });
+        f.on_finish([idx, this](size_t&) {
+          on_cb(idx, nullptr);
+          observed_ready("on_finish callback");
+        });
         break;
       }
     }
@@ -689,6 +701,8 @@ struct LatchCase {
         for (int t = 0; t < nd; t++)
           pool.start(t, [&, t] {
             for (size_t d : downs[(size_t)t]) {
+              payload[n_payload].set((uint64_t)n_payload + 100, "work published by count_down");
+              n_payload++;
               W->down_begun += d;
               if (W->down_begun == W->latch_count) W->ctor_done_step = dsched::step();
               latch->count_down(d);
@@ -774,7 +788,11 @@ void tune(dsched::Params& p, Chooser&) { p.max_steps = 200000; }
 
 int main(int argc, char** argv) {
   vf::Target t;
+#ifdef NDEBUG
+  t.name = "c08_future_ndebug";  // babylon's own asserts compiled out (release flavour): only the harness oracles speak
+#else
   t.name = "c08_future";
+#endif
   t.property_id = "C08";
   t.run_case = run_case;
   t.tune = tune;
